@@ -26,6 +26,8 @@ def short_streams():
         'bad-utf8-then-text': (b'', enc([SFrame(TEXT, b'\xc0\xaf'), SFrame(TEXT, b'a')])),
         'bad-utf8-late': (b'', enc([SFrame(TEXT, b'ab\xffcd'), SFrame(PING, b'')])),
         'truncated-utf8': (b'', enc([SFrame(TEXT, b'a\xe2\x82'), SFrame(BINARY, b'zz')])),
+        'trunc-then-ascii': (b'', enc([SFrame(TEXT, b'\xe2\x8212', fin=0), SFrame(PING, b''), SFrame(CONT, b'z')])),
+        'hdr-cut-then-frame': (b'', enc([SFrame(BINARY, b'ab', lenform=16), SFrame(BINARY, b'c', lenform=16)])),
         'reserved-op': (b'', enc([SFrame(3, b'x'), SFrame(TEXT, b'a')])),
         'rsv-bits': (b'', enc([SFrame(TEXT, b'hi', rsv=2), SFrame(TEXT, b'a')])),
         'len16-nonminimal': (b'', enc([SFrame(TEXT, b'hi', lenform=16), SFrame(PING, b'')])),
